@@ -25,7 +25,9 @@ NOTE_TEXT = ['(BONG)', '<VT IN>', '(', ')', '()', '<>', '( x )', '  (padded note
              # reference-like text: not a note, and not to be decoded a second time
              '&lt;VT&gt;', '&amp;', 'q=budget&region=wales&section=politics', '&#40;not a note&#41;', 'AT&T',
              # characters outside the Basic Multilingual Plane
-             '\U0001F600 good evening', '(\U0001F3AC)', '\U00020000\U0001D49C']
+             '\U0001F600 good evening', '(\U0001F3AC)', '\U00020000\U0001D49C',
+             # markup-like text in the middle of a line: part of the line, neither a note nor markup to remove
+             'Good evening <pause> and welcome', '<b>Headline</b> tonight', 'Turn to camera 2 <CAM2>', 'x</p>y', 'if a<b then b>a']
 HOSTILE_IDS = ['S1', 'S10', 'S1 ', ' S1', 's1', 'S01', 'A&B', 'x<y', 'q"q', "o'o", '5" x 7\' card',
                'NEWS,AM,S1', 'SPORT,AM,S1', 'OPENMEDIA,7f3a.22,S10', '{6B29FC40-CA47-1067}', 'a{0}b', '%s %d {x}',
                'B"][itemID=\'B\'][itemID="B', 'éè', '\U0001F600',
@@ -42,8 +44,12 @@ class Ids:
     def __init__(self, prefix='N'):
         self.n = 0
         self.prefix = prefix
+        self.recycled = []       # IDs of elements that are gone: a later message may create them again
+        self.rng = None
 
     def new(self, tag=''):
+        if self.recycled and self.rng is not None and self.rng.random() < 0.25:
+            return self.recycled.pop(self.rng.randrange(len(self.recycled)))
         self.n += 1
         return f'{self.prefix}{tag}{self.n}'
 
@@ -158,6 +164,33 @@ def split_ids(rng, text, p=0.5):
     return re.sub(r'<(storyID|itemID)>([^<&]{2,})</', f, text)
 
 
+# times dateutil reads (the library's documented parser) that are not strict ISO-8601: a zone name,
+# unpadded fields, surrounding white space (a re-indented document), another layout, a short UTC offset
+LOOSE_TIMES = ['%(d)sT%(t)s GMT', '%(d)sT%(t)s UTC', '%(y)d-%(m)d-%(dd)dT%(t)s', ' %(d)sT%(t)s ', '\n        %(d)sT%(t)s\n      ',
+               '%(dd)d %(mon)s %(y)d %(t)s', '%(d)sT%(t)s-5:00', 'Wed, %(dd)02d %(mon)s %(y)d %(t)s +0000']
+
+
+def loose_time(rng, day, clock):
+    y, m, dd = (int(x) for x in day.split('-'))
+    mon = ['Jan', 'Feb', 'Mar', 'Apr', 'May', 'Jun', 'Jul', 'Aug', 'Sep', 'Oct', 'Nov', 'Dec'][m - 1]
+    return rng.choice(LOOSE_TIMES) % {'d': day, 't': clock, 'y': y, 'm': m, 'dd': dd, 'mon': mon}
+
+
+def second_block(rng):
+    """A further mosExternalMetadata block of another schema that happens to use timing tag names:
+    a story's timing is read from its FIRST block only."""
+    mem = E('mosExternalMetadata')
+    mem.append(E('mosScope', 'STORY'))
+    mem.append(E('mosSchema', 'http://example/other'))
+    p = E('mosPayload')
+    for tag, v in (('StoryDuration', '77'), ('TextTime', '5'), ('MediaTime', '9'),
+                   ('StoryStarted', '2019-12-31T23:00:00'), ('StoryEnded', '2019-12-31T23:30:00')):
+        if rng.random() < 0.5:
+            p.append(E(tag, v))
+    mem.append(p)
+    return mem
+
+
 def rand_timing(rng, mode='any'):
     """Timing metadata block or None.  mode: any | timed | none | wild"""
     if mode == 'wild':
@@ -197,6 +230,8 @@ def rand_timing(rng, mode='any'):
         if fmt == 'DATE':
             return day                                     # date only: midnight
         # sometimes with a UTC offset or a zone designator (an aware time)
+        if rng.random() < 0.15:
+            return loose_time(rng, day, '%02d:%02d:%02d' % (hh, mm, ss))
         zone = rng.choice(['', '', '', '+01:00', 'Z', '-05:30'])
         return fmt % (day, '%02d:%02d:%02d' % (hh, mm, ss)) + zone
     if rng.random() < 0.2:
@@ -291,6 +326,8 @@ def rand_story(rng, story_id, item_idgen, pool, n_items=None, layout=None, timin
     t = rand_timing(rng, timing)
     if rich and t is not None and rng.random() < 0.2:
         extra.append(rich_blob(rng, 1, pool, 'mosAbstract'))
+    if timing != 'none' and rng.random() < 0.1:
+        kids.insert(0, second_block(rng))        # stands after the timing block (or is the only block)
     attrib = {'flag': rng.choice(pool)} if rich and rng.random() < 0.15 else None
     slug = rng.choice(pool) if rng.random() < 0.85 else None
     return B.story(story_id, slug, kids, timing_el=t, extra=extra, attrib=attrib)
@@ -363,7 +400,8 @@ def rand_ro(rng, n_stories=None, meta_layout=None, pool=None, timing='any', ids=
         r = rng.random()
         ed_start = ('2020-01-01T12:30:00' if r < 0.4 else '2020-01-01T12:30:15' if r < 0.5 else
                     '2020-01-01T12:30:15.500000' if r < 0.58 else '2020-01-01T12:30:00+01:00' if r < 0.64 else
-                    '2020-01-01T12:30:00Z' if r < 0.7 else ('' if r < 0.8 else None))
+                    '2020-01-01T12:30:00Z' if r < 0.7 else '' if r < 0.8 else
+                    loose_time(rng, '2020-01-01', '12:30:05') if r < 0.87 else None)
     pretty = rng.random() < 0.5 if pretty is None else pretty
     env = {}
     if rich and rng.random() < 0.3:
@@ -506,6 +544,8 @@ def _rand_message(rng, state, kind, message_id, ids, pool=None, ro_id='RO', timi
         t = rand_timing(rng, timing)
         if t is not None:
             fields.append(t)
+            if rng.random() < 0.1:
+                fields.append(second_block(rng))
         if rng.random() < 0.15:
             fields.insert(0, 'BODY0')               # storyBody before roID / storyID
         else:
